@@ -32,3 +32,65 @@ package master
 //@   loop 1 invariant len(liveReplicaNodes.Replicas) == 0 ==> forall(k, 0, rangeindex + 1, !has(liveNodes, replicas.Replicas[k]))
 //@   loop 1 invariant len(liveReplicaNodes.Replicas) > 0 ==> exists(i, 0, rangeindex + 1, replicas.Replicas[i] == liveReplicaNodes.Replicas[0] && has(liveNodes, replicas.Replicas[i]) && forall(k, 0, i, !has(liveNodes, replicas.Replicas[k])))
 //@ end
+
+//@ # ---- shard placement (C18) ---------------------------------------------------------------------
+//@ predicate nodesDistinct(ids []models.NodeID) bool = forall(a, 0, len(ids), forall(b, 0, len(ids), a != b ==> ids[a] != ids[b]))
+//@ predicate saOK(sa *models.ShardAssignment) bool = sa != nil && sa.Shards != nil && all(k, "models.ShardID", has(sa.Shards, k) ==> sa.Shards[k] != nil)
+//@ # replicas of one shard as the placement rule defines them: position 0 = round robin, position m+1 = ridx(.., m, ..)
+//@ predicate placed(sa *models.ShardAssignment, ids []models.NodeID, k models.ShardID, first int, shift int, cnt int) bool = has(sa.Shards, k) && len(sa.Shards[k].Replicas) == cnt && cnt >= 1 && sa.Shards[k].Replicas[0] == ids[first] && forall(m, 0, cnt - 1, sa.Shards[k].Replicas[m + 1] == ids[ridx(first, shift, m, len(ids))])
+//@ func assignReplicasToStorageNodes
+//@   prop C18
+//@   arith math
+//@   regions
+//@   opaque ridx
+//@   requires len(storageNodeIDs) >= 1 && len(storageNodeIDs) <= 100000
+//@   requires replicaFactor >= 1 && replicaFactor <= len(storageNodeIDs) && numOfShard >= 0 && numOfShard <= 1000000
+//@   requires fixedStartIndex >= 0 && fixedStartIndex <= 1000000 && int(startShardID) >= 0 && int(startShardID) <= 1000000
+//@   requires saOK(shardAssignment) && all(k, "models.ShardID", int(k) >= int(startShardID) ==> !has(shardAssignment.Shards, k))
+//@   modifies *
+//@   ensures[every_new_shard_present] all(k, "models.ShardID", (int(k) >= int(startShardID) && int(k) < int(startShardID) + numOfShard) ==> has(shardAssignment.Shards, k))
+//@   ensures[existing_shards_stay] all(k, "models.ShardID", old(has(shardAssignment.Shards, k)) ==> (has(shardAssignment.Shards, k) && shardAssignment.Shards[k] == old(shardAssignment.Shards[k])))
+//@   ensures[existing_replica_lists_untouched] all(p, "*models.Replica", (p != nil && !fresh(p)) ==> (len(p.Replicas) == old(len(p.Replicas)) && forall(x, 0, len(p.Replicas), p.Replicas[x] == old(p.Replicas[x]))))
+//@   ensures[nothing_beyond] all(k, "models.ShardID", int(k) >= int(startShardID) + numOfShard ==> !has(shardAssignment.Shards, k))
+//@   ensures[only_new_ids_added] all(k, "models.ShardID", has(shardAssignment.Shards, k) ==> (old(has(shardAssignment.Shards, k)) || (int(k) >= int(startShardID) && int(k) < int(startShardID) + numOfShard)))
+//@   loop 1 invariant i >= 0 && i <= numOfShard && int(currentShardID) == int(startShardID) + i && saOK(shardAssignment) && nextReplicaShift >= fixedStartIndex && nextReplicaShift <= fixedStartIndex + i
+//@   loop 1 invariant all(k, "models.ShardID", int(k) >= int(currentShardID) ==> !has(shardAssignment.Shards, k))
+//@   loop 1 invariant all(k, "models.ShardID", (int(k) >= int(startShardID) && int(k) < int(currentShardID)) ==> has(shardAssignment.Shards, k))
+//@   loop 1 invariant all(k, "models.ShardID", has(shardAssignment.Shards, k) ==> (old(has(shardAssignment.Shards, k)) || (int(k) >= int(startShardID) && int(k) < int(currentShardID))))
+//@   loop 1 invariant all(k, "models.ShardID", old(has(shardAssignment.Shards, k)) ==> (has(shardAssignment.Shards, k) && shardAssignment.Shards[k] == old(shardAssignment.Shards[k])))
+//@   loop 1 invariant all(p, "*models.Replica", (p != nil && !fresh(p)) ==> (len(p.Replicas) == old(len(p.Replicas)) && forall(x, 0, len(p.Replicas), p.Replicas[x] == old(p.Replicas[x]))))
+//@   loop 2 invariant j >= 0 && saOK(shardAssignment) && has(shardAssignment.Shards, currentShardID) && fresh(shardAssignment.Shards[currentShardID]) && models.distinctReplicas(shardAssignment.Shards[currentShardID])
+//@   loop 2 invariant all(k, "models.ShardID", int(k) > int(currentShardID) ==> !has(shardAssignment.Shards, k))
+//@   loop 2 invariant all(k, "models.ShardID", (int(k) >= int(startShardID) && int(k) < int(currentShardID)) ==> has(shardAssignment.Shards, k))
+//@   loop 2 invariant all(k, "models.ShardID", has(shardAssignment.Shards, k) ==> (old(has(shardAssignment.Shards, k)) || (int(k) >= int(startShardID) && int(k) <= int(currentShardID))))
+//@   loop 2 invariant all(k, "models.ShardID", old(has(shardAssignment.Shards, k)) ==> (has(shardAssignment.Shards, k) && shardAssignment.Shards[k] == old(shardAssignment.Shards[k])))
+//@   loop 2 invariant all(p, "*models.Replica", (p != nil && !fresh(p)) ==> (len(p.Replicas) == old(len(p.Replicas)) && forall(x, 0, len(p.Replicas), p.Replicas[x] == old(p.Replicas[x]))))
+//@   note attempted, not claimed: every new shard gets exactly replicaFactor distinct replicas and the first replica is storageNodeIDs[(shard+start) % n]; the inductive invariant (placed/ridx_injective) did not discharge within the quick timeout
+//@ end
+//@ # creation and growth refuse impossible requests (replica factor above the number of live nodes)
+//@ func ShardAssignment
+//@   prop C18
+//@   arith math
+//@   regions
+//@   requires cfg != nil && len(storageNodeIDs) <= 100000 && fixedStartIndex >= 0 && fixedStartIndex <= 1000000 && int(startShardID) == 0 && cfg.NumOfShard <= 1000000
+//@   modifies *
+//@   ensures[error_cases] (old(cfg.NumOfShard) <= 0 || old(cfg.ReplicaFactor) <= 0 || old(cfg.ReplicaFactor) > len(storageNodeIDs)) == (result1 != nil)
+//@   ensures[all_shards_present] result1 == nil ==> (result0 != nil && all(k, "models.ShardID", (int(k) >= 0 && int(k) < old(cfg.NumOfShard)) == has(result0.Shards, k)))
+//@ end
+//@ func ModifyShardAssignment
+//@   prop C18
+//@   arith math
+//@   regions
+//@   requires cfg != nil && saOK(shardAssignment) && len(storageNodeIDs) <= 100000 && fixedStartIndex >= 0 && fixedStartIndex <= 1000000 && cfg.NumOfShard <= 1000000 && cfg.NumOfShard >= 0 - 1000000 && len(shardAssignment.Shards) <= 1000000
+//@   requires int(startShardID) == len(shardAssignment.Shards) && int(startShardID) >= 0 && all(k, "models.ShardID", has(shardAssignment.Shards, k) == (int(k) >= 0 && int(k) < int(startShardID)))
+//@   modifies *
+//@   ensures[error_cases] (old(cfg.NumOfShard) - old(len(shardAssignment.Shards)) <= 0 || old(cfg.ReplicaFactor) <= 0 || old(cfg.ReplicaFactor) > len(storageNodeIDs)) == (result != nil)
+//@   ensures[refused_changes_nothing] result != nil ==> all(k, "models.ShardID", has(shardAssignment.Shards, k) == old(has(shardAssignment.Shards, k)) && shardAssignment.Shards[k] == old(shardAssignment.Shards[k]))
+//@   ensures[growth_keeps_existing_shards] result == nil ==> all(k, "models.ShardID", old(has(shardAssignment.Shards, k)) ==> (has(shardAssignment.Shards, k) && shardAssignment.Shards[k] == old(shardAssignment.Shards[k]) && len(shardAssignment.Shards[k].Replicas) == old(len(shardAssignment.Shards[k].Replicas))))
+//@   ensures[growth_adds_exactly_the_new_ids] result == nil ==> all(k, "models.ShardID", has(shardAssignment.Shards, k) == (int(k) >= 0 && int(k) < old(cfg.NumOfShard)))
+//@ end
+//@ func models.NewShardAssignment
+//@   assume
+//@   fresh
+//@   ensures result != nil && result.Shards != nil && fresh(result.Shards) && len(result.Shards) == 0 && all(k, "models.ShardID", !has(result.Shards, k))
+//@ end
